@@ -1,9 +1,9 @@
 #!/bin/sh
 # evaluates every mutant found under /tmp/mut/Cxx/_mut/k against its own property's check
 tier=${1:-quick}
-for d in /tmp/mut/C*/_mut/*/; do
+for d in ${MUTROOT:-/tmp/mut}/C*/_mut/*/; do
   [ -f $d/patch.diff ] || continue
-  p=$(echo $d | sed 's|/tmp/mut/\(C[0-9]*\)/.*|\1|')
+  p=$(echo $d | grep -o "C[0-9][0-9]" | head -1)
   k=$(basename $d)
   if [ -f $d/result.$tier.txt ] && [ -z "${FORCE:-}" ]; then echo "$p/$k: $(tr '\n' ' ' < $d/result.$tier.txt)"; continue; fi
   /verif/tools/evalmut.sh $d $p $tier > $d/result.$tier.txt 2>&1
